@@ -1,7 +1,10 @@
 package props
 
 import (
+	"encoding/binary"
 	"fmt"
+	"math"
+	"strings"
 	"testing"
 
 	jd "github.com/josephburnett/jd/v2"
@@ -25,6 +28,9 @@ type TargetCase struct {
 	Keep []int  `json:"keep"`
 	C    string `json:"c"`
 	How  string `json:"how,omitempty"` // how C was derived (informational)
+	// Text: the kept hunks are rendered and read back first (a hand-edited
+	// patch is a text file).
+	Text bool `json:"text,omitempty"`
 }
 
 func subDiff(d jd.Diff, hs []ref.Hunk, keep []int) (jd.Diff, []ref.Hunk) {
@@ -107,10 +113,19 @@ func checkC03(c TargetCase, r *rec.Rec) error {
 		return nil
 	}
 
+	cls := []string{"how=" + c.How}
+	if c.Text {
+		cls = append(cls, "through-text")
+		rendered := sd.Render()
+		sd2, err := jd.ReadDiffString(rendered)
+		if err != nil {
+			return rec.Violated("jd cannot read the rendered hunks: %v\n%s", err, truncateText(rendered, 2000))
+		}
+		sd = sd2
+	}
 	out := jdx.Patch(jdx.NodeText(c.C), sd)
 	jdFails := !out.OK()
 
-	cls := []string{"how=" + c.How}
 	if out.Panicked {
 		cls = append(cls, "jd-panicked(counts-as-rejected)")
 	}
@@ -219,6 +234,24 @@ func perturbNear(t *rapid.T, doc val.V, h ref.Hunk) (val.V, string, bool) {
 		}
 		l[pos] = freshScalar(t)
 		return true
+	}
+	if gen.Chance(t, "hashTwin", 4) {
+		// an element that the hunk names (context or removed value) replaced by
+		// the number whose bytes equal that value's fixed hash input
+		twins := map[string]float64{}
+		for k, b := range magicBytes[:4] {
+			twins[[]string{"N", "A0()", "O0{}", "S0:"}[k]] = math.Float64frombits(binary.LittleEndian.Uint64(b[:]))
+		}
+		for pos := i - 1; pos <= end && pos < len(l); pos++ {
+			if pos < 0 {
+				continue
+			}
+			if tw, ok := twins[val.Canon(l[pos], val.List)]; ok {
+				l[pos] = tw
+				nd, ok := gen.SetAt(doc, steps, l)
+				return nd, "hash-twin", ok
+			}
+		}
 	}
 	switch gen.Int(t, "nearOp", 0, 11) {
 	case 10, 11:
@@ -333,6 +366,31 @@ func drawTarget(t *rapid.T, av, bv val.V, hs []ref.Hunk, p gen.Profile) (val.V, 
 }
 
 func genC03(t *rapid.T) TargetCase {
+	c := genC03base(t)
+	c.Text = gen.Chance(t, "throughText", 50)
+	return c
+}
+
+// hugeContextCase: a list whose elements next to the edit are longer than
+// 1 MiB when rendered on one line.
+func hugeContextCase(t *rapid.T) TargetCase {
+	big := strings.Repeat("c", 1100000)
+	a := []val.V{1.0, big + "1", 2.0, big + "2", 3.0}
+	b := []val.V{1.0, big + "1", 9.0, big + "2", 3.0}
+	c := []val.V{1.0, big + "1", 2.0, big + "X", 3.0}
+	if gen.Chance(t, "before", 50) {
+		c = []val.V{1.0, big + "X", 2.0, big + "2", 3.0}
+	}
+	if gen.Chance(t, "matching", 30) {
+		c = a
+	}
+	return TargetCase{A: val.JSON(a), B: val.JSON(b), Opts: "list", C: val.JSON(c), How: "huge-context", Text: true}
+}
+
+func genC03base(t *rapid.T) TargetCase {
+	if gen.Chance(t, "hugeContext", 1) && gen.Chance(t, "hugeContext2", 25) {
+		return hugeContextCase(t)
+	}
 	p := gen.Profile{ArrayBias: 60, MaxArr: 7}
 	if gen.Chance(t, "nasty", 10) {
 		p.NastyKeys = true
